@@ -223,8 +223,8 @@ open ScyllaVerif.C08V in
 /-- A whole result: `rows_iter::<Row>()` over any number of announced rows, any column types, any bytes, never
 panics (the column list must fit in memory: at most `usize::MAX` columns). -/
 theorem no_panic_typed_rows (u : Bytes → Bool) (ts : List CqlTy) (hts : ts.length ≤ USIZE_MAX) (n : Nat) (bs : Bytes)
-    (site : String) : rowsP u ts n 0 bs ≠ .panic site :=
-  rowsP_np u ts hts n 0 bs site
+    (site : String) : rowsP u ts n bs ≠ .panic site :=
+  rowsP_np u ts hts n bs site
 
 open ScyllaVerif.C08V in
 /-- The variable-length integer decoder (vector element sizes, `duration` cells) never reaches its shift /
@@ -268,6 +268,30 @@ theorem typed_vector_bound (f : Bytes → Out CqlVal) (elt : CqlTy) (hd : DimsPo
     (hs : sizeForVectorSat elt = some size) (n : Nat) (bs : Bytes) (vs : List CqlVal)
     (h : vecFixedP f size n bs = .ok vs) : vs.length = n ∧ n ≤ bs.length :=
   vecFixedP_bound f size (sizeForVectorSat_pos elt hd size hs) n bs vs h
+
+/-! ### the overridden iterator methods
+
+`VectorIterator` overrides `nth` (a fast path that skips `n · element_length` bytes) and every modelled iterator
+overrides `size_hint`.  Before fix 73c0abc the product overflowed for huge declared element sizes. -/
+
+open ScyllaVerif.C08V in
+/-- `VectorIterator::nth(n)` never panics, for every `n`, element size, remaining count (`≤ usize::MAX`) and all
+bytes: the product saturates, and `n < remaining` guards `n + 1` and both subtractions. -/
+theorem no_panic_vector_nth (f : Bytes → Out CqlVal) (hf : ∀ b s, f b ≠ .panic s) (size remaining n : Nat)
+    (bs : Bytes) (hr : remaining ≤ USIZE_MAX) (site : String) : vecNthFixedP f size remaining n bs ≠ .panic site :=
+  vecNthFixedP_np f hf size remaining n bs hr site
+
+open ScyllaVerif.C08V in
+theorem no_panic_size_hints (r : Nat) (site : String) :
+    vecSizeHintP r ≠ .panic site ∧ mapSizeHintP r ≠ .panic site :=
+  ⟨vecSizeHintP_np r site, mapSizeHintP_np r site⟩
+
+open ScyllaVerif.C08V in
+/-- Non-vacuity: the shape of the repaired defect — element size 8·65535³, `nth(9000)`: the product exceeds
+`usize::MAX`, saturates, and the skip fails with an ordinary error. -/
+example : (match vecNthFixedP (fun _ => .ok .empty) (8 * 65535 ^ 3) 65535 9000 [0] with
+    | .ok (some (.error _), _, _) => true
+    | _ => false) = true := by decide +kernel
 
 /-! ### the tablets routing payload -/
 
